@@ -142,7 +142,12 @@ def generate(rng, tier):
             if muxgen.has_take(ast):
                 ast = strip_fallible(ast)
             kind = rng.choice(['keys', 'keys', 'groupby'])
-            trace = muxgen.gen_trace_scale(rng, rng.choice(['long', 'long2', 'long_reuse']) if kind == 'keys' else 'many_groups')
+            # an operator with a large parameter gets keys long enough to pass it twice (a short key says nothing about it)
+            big = op[1] if op[0] in ('take', 'batch') else 0
+            if big:
+                kind = 'keys'
+            trace = muxgen.gen_trace_scale(rng, rng.choice(['long', 'long2', 'long_reuse']) if kind == 'keys' else 'many_groups',
+                                           min_n=2 * big + 7)
             if op[0] == 'scan' and op[1] == ['add'] and rng.random() < 0.7:
                 trace = [(['n', e[1], enc(2 ** 31 + dec(e[2]))] if e[0] == 'n' else e) for e in trace]
             cases.append({'ast': ast, 'trace': trace, 'kind': kind, 'km': rng.choice([['mod', 300], ['mod', 2], ['id']]), 'scale': True})
